@@ -73,7 +73,7 @@ Definition wfx_tva (pos : N) (vs : list bytes) : bool :=
   | v :: t =>
       match get_pos c pos with
       | Some a => a_tva a && negb (a_last a) && a_multiple_values a && (sink_index c pos =? pos)
-                  && value_ok v && nosub c v && forallb (no_term a) (v :: t)
+                  && value_ok v && nosub c v && forallb (no_term a) (v :: t) && negb (lookahead_at c pos)
       | None => false
       end
   end.
@@ -88,6 +88,7 @@ Definition wfx_hyp (pos : N) (vs : list bytes) : bool :=
       match get_pos c pos with
       | Some a => a_hyphen a && negb (a_last a) && negb (a_tva a) && a_multiple_values a
                   && nosub c v && (value_ok v || hyphen_tok c pos v) && forallb (no_term a) (v :: t)
+                  && negb (lookahead_at c pos)
       | None => false
       end
   end.
@@ -97,9 +98,10 @@ Hypothesis Hx : convx c = true.
 (** any token while the run of a hyphen-valued positional is open *)
 Lemma hyp_more_tok (w : bytes) (rest : list bytes) pos vaf st a :
   get_pos c pos = Some a -> a_hyphen a = true -> a_last a = false -> a_tva a = false -> check_terminator a w = false ->
+  lookahead_off c pos ->
   parse_loop c (w :: rest) (mkL (PSPos (a_id a)) pos vaf false) st = pos_step_k c a w rest pos st.
 Proof.
-  intros Hg Hh Hlast Htva Hterm. pose proof (get_pos_in c pos a Hg) as Ha. pose proof (find_arg_self_x c Hx a Ha) as FA.
+  intros Hg Hh Hlast Htva Hterm Hlow. pose proof (get_pos_in c pos a Hg) as Ha. pose proof (find_arg_self_x c Hx a Ha) as FA.
   pose proof (convx_sp c Hx) as Hsp.
   assert (SA : state_arg c (PSPos (a_id a)) = ROk (Some a)) by (cbn [state_arg]; rewrite FA; reflexivity).
   rewrite parse_loop_step.
@@ -107,9 +109,7 @@ Proof.
     (do p1 <- ROk (@None (res loop_res), mkL (PSPos (a_id a)) pos vaf1 false, st);
      let '(early, ls, st) := p1 in
      match early with Some r => r | None => phase2 c (parse_loop c rest) w rest ls st end) = pos_step_k c a w rest pos st).
-  { intros vaf1. cbn [rbind]. unfold phase2. cbn [l_trailing l_pst]. unfold pos_part.
-    rewrite (convx_low_all c Hx pos vaf1 rest (PSPos (a_id a))). cbn [rbind]. cbn [l_trailing l_pst l_vaf l_pos].
-    rewrite Hg, Hlast, Htva. cbn [andb orb]. rewrite Hterm. unfold pos_step_k. reflexivity. }
+  { intros vaf1. cbn [rbind]. apply (pos_deliver c); try assumption. exact I. }
   unfold phase1. cbn [l_trailing l_pst l_vaf l_pos]. rewrite Hsp. cbn [orb].
   destruct (is_escape w).
   - rewrite SA. cbn [rbind]. rewrite Hh. exact (TAIL vaf).
@@ -125,16 +125,16 @@ Proof.
 Qed.
 
 Lemma loop_hyp_values a pos st : get_pos c pos = Some a -> a_hyphen a = true -> a_last a = false -> a_tva a = false ->
-  a_multiple_values a = true ->
+  a_multiple_values a = true -> lookahead_off c pos ->
   forall (vs vs0 : list bytes), forallb (no_term a) vs = true ->
   parse_loop c vs (mkL (PSPos (a_id a)) pos true false) (set_pending (a_id a) IIndex vs0 st) =
   ROk (LDone (set_pending (a_id a) IIndex (vs0 ++ vs) st)).
 Proof.
-  intros Hg Hh Hlast Htva Hm. induction vs as [|v vs IH]; intros vs0 Hts.
+  intros Hg Hh Hlast Htva Hm Hlow. induction vs as [|v vs IH]; intros vs0 Hts.
   - rewrite app_nil_r. reflexivity.
   - cbn [forallb] in Hts. apply andb_prop in Hts. destruct Hts as [Ht Hts].
     assert (Ht' : check_terminator a v = false) by (unfold no_term in Ht; destruct (check_terminator a v); [discriminate|reflexivity]).
-    rewrite (hyp_more_tok v vs pos true _ a Hg Hh Hlast Htva Ht').
+    rewrite (hyp_more_tok v vs pos true _ a Hg Hh Hlast Htva Ht' Hlow).
     rewrite (pos_more c v vs pos st a vs0 Hm). rewrite (IH (vs0 ++ [v]) Hts). rewrite <- app_assoc. reflexivity.
 Qed.
 
@@ -143,6 +143,7 @@ Theorem loop_hyp : forall (vs : list bytes) pos vaf st, wfx_hyp pos vs = true ->
 Proof.
   intros vs pos vaf st Hw Hi. destruct vs as [|v vs]; [discriminate Hw|]. cbn [wfx_hyp] in Hw.
   destruct (get_pos c pos) as [a|] eqn:Hg; [|discriminate].
+  apply andb_prop in Hw. destruct Hw as [Hw HL]. apply negb_true_iff in HL. apply (lookahead_off_of c) in HL.
   apply andb_prop in Hw. destruct Hw as [Hw Hts]. apply andb_prop in Hw. destruct Hw as [Hw Hv]. apply andb_prop in Hw. destruct Hw as [Hw Hn].
   apply andb_prop in Hw. destruct Hw as [Hw Hm]. apply andb_prop in Hw. destruct Hw as [Hw Htva]. apply andb_prop in Hw. destruct Hw as [Hh Hlast].
   apply negb_true_iff in Htva. apply negb_true_iff in Hlast.
@@ -150,13 +151,13 @@ Proof.
   assert (Ht' : check_terminator a v = false) by (unfold no_term in Ht; destruct (check_terminator a v); [discriminate|reflexivity]).
   assert (E1 : parse_loop c (v :: vs) (mkL PSValuesDone pos vaf false) st = pos_step_k c a v vs pos st).
   { apply orb_prop in Hv. destruct Hv as [Hv|Hv].
-    - apply (pos_branch_x c Hx v vs PSValuesDone pos vaf st a I Hn Hv Hg Ht' Hlast Htva).
-    - apply (pos_branch_h c Hx v vs pos vaf st a Hn Hv Hg (convx_low_all c Hx pos) Ht' Hlast Htva). }
+    - apply (pos_branch_x c Hx v vs PSValuesDone pos vaf st a I Hn Hv Hg Ht' Hlast Htva HL).
+    - apply (pos_branch_h c Hx v vs pos vaf st a Hn Hv Hg HL Ht' Hlast Htva). }
   rewrite E1. rewrite (pos_first_x c Hx v vs PSValuesDone pos st a Hg I Hi).
   assert (Hmul : a_is_multiple a = true) by (unfold a_is_multiple; rewrite Hm; reflexivity).
   rewrite Hmul. cbn [apply_item]. rewrite Hg. unfold sep_step.
   destruct (resolve_pending c st) as [s1|e s|n]; cbn [rbind]; try reflexivity.
-  rewrite (loop_hyp_values a pos s1 Hg Hh Hlast Htva Hm vs [v] Hts). reflexivity.
+  rewrite (loop_hyp_values a pos s1 Hg Hh Hlast Htva Hm HL vs [v] Hts). reflexivity.
 Qed.
 
 Lemma wfx_hyp_pos pos vs : wfx_hyp pos vs = true -> exists a, get_pos c pos = Some a.
@@ -184,11 +185,14 @@ Proof.
   apply rbind_ext. intros x _. reflexivity.
 Qed.
 
+(** after [--] the look-ahead of a low-index multiple stays live: the tails below are for commands without one *)
+Hypothesis Hlow : low_index_mults_any c = false.
+
 Lemma trail_branch_x (v : bytes) (rest : list bytes) pst pos vaf st a :
   get_pos c (sink_index c pos) = Some a -> check_terminator a v = false ->
   parse_loop c (v :: rest) (mkL pst pos vaf true) st = trail_step_k c a v rest (sink_index c pos) st.
 Proof.
-  intros Hg Ht. destruct (convx_parts c Hx) as [_ [_ [_ [_ Hlow]]]].
+  intros Hg Ht.
   rewrite (parse_loop_trailing_step c v rest (mkL pst pos vaf true) st eq_refl).
   unfold pos_body. cbn [l_pos l_vaf]. rewrite (pos_correct_sink c pos vaf rest Hlow). cbn [rbind].
   rewrite Hg. unfold trail_step_k. rewrite Ht. reflexivity.
@@ -291,19 +295,13 @@ Qed.
 (** the first value of a [trailing_var_arg] run: an ordinary positional value, but the loop goes on in trailing mode *)
 Lemma loop_tva_head (v : bytes) (rest : list bytes) pos vaf st a :
   get_pos c pos = Some a -> a_last a = false -> a_tva a = true ->
-  nosub c v = true -> value_ok v = true -> check_terminator a v = false ->
+  nosub c v = true -> value_ok v = true -> check_terminator a v = false -> lookahead_off c pos ->
   parse_loop c (v :: rest) (mkL PSValuesDone pos vaf false) st = trail_step_k c a v rest pos st.
 Proof.
-  intros Hg Hlast Htva Hn Hv Hterm. destruct (value_ok_parts v Hv) as [E1 [E2 E3]].
-  destruct (convx_parts c Hx) as [_ [Hsp [_ [Hamp _]]]].
-  pose proof (convx_low c Hx pos) as Hlow.
-  cbn [parse_loop]. cbn [l_trailing l_pst l_vaf l_pos].
-  assert (Hs : (if is_set s_sub_precedence c || true then possible_subcommand c v vaf else None) = None).
-  { rewrite orb_true_r. apply (nosub_if c v vaf true Hn). }
-  rewrite Hs, E1, E2, E3. cbn [rbind]. cbn [l_trailing l_pst l_vaf l_pos].
-  unfold trail_step_k.
-  rewrite Hlow, Hamp; cbn [andb orb rbind]; rewrite Hg, Hlast, Htva; cbn [andb orb];
-    rewrite Hterm; reflexivity.
+  intros Hg Hlast Htva Hn Hv Hterm HL. rewrite parse_loop_step.
+  rewrite (phase1_value c Hx (parse_loop c rest) v rest PSValuesDone pos vaf st Hn Hv). cbn [rbind].
+  unfold phase2. cbn [l_trailing l_pst]. unfold pos_part. rewrite (HL vaf rest PSValuesDone). cbn [rbind].
+  cbn [l_trailing l_pst l_vaf l_pos]. rewrite Hg, Hlast, Htva. cbn [andb orb]. rewrite Hterm. unfold trail_step_k. reflexivity.
 Qed.
 
 (** the whole run of a [trailing_var_arg] positional *)
@@ -312,6 +310,7 @@ Theorem loop_tva : forall (vs : list bytes) pos vaf st, wfx_tva pos vs = true ->
 Proof.
   intros vs pos vaf st Hw Hi. destruct vs as [|v vs]; [discriminate Hw|]. cbn [wfx_tva] in Hw.
   destruct (get_pos c pos) as [a|] eqn:Hg; [|discriminate].
+  apply andb_prop in Hw. destruct Hw as [Hw HL]. apply negb_true_iff in HL. apply (lookahead_off_of c) in HL.
   apply andb_prop in Hw. destruct Hw as [Hw Hts]. apply andb_prop in Hw. destruct Hw as [Hw Hn].
   apply andb_prop in Hw. destruct Hw as [Hw Hv]. apply andb_prop in Hw. destruct Hw as [Hw Hsk].
   apply andb_prop in Hw. destruct Hw as [Hw Hm]. apply andb_prop in Hw. destruct Hw as [Htva Hlast].
@@ -320,7 +319,7 @@ Proof.
   assert (Ht' : check_terminator a v = false) by (unfold no_term in Ht; destruct (check_terminator a v); [discriminate|reflexivity]).
   pose proof (get_pos_in c _ a Hg) as Ha.
   assert (Hidx : a_index a <> None) by (rewrite (get_pos_index c _ a Hg); discriminate).
-  rewrite (loop_tva_head v vs pos vaf st a Hg Hlast' Htva Hn Hv Ht').
+  rewrite (loop_tva_head v vs pos vaf st a Hg Hlast' Htva Hn Hv Ht' HL).
   rewrite (trail_first_x v vs pos st a Ha Hidx Hi).
   cbn [trailx_apply]. rewrite Hsk, Hg, Hm.
   destruct (resolve_pending c st) as [s1|e s|n]; cbn [rbind]; try reflexivity. cbv zeta.
@@ -367,6 +366,7 @@ Lemma wfx_tva_trail pos vs : wfx_tva pos vs = true -> wfx_trail pos vs = true.
 Proof.
   intros Hw. destruct vs as [|v vs]; [discriminate Hw|]. cbn [wfx_tva] in Hw.
   destruct (get_pos c pos) as [a|] eqn:Hg; [|discriminate].
+  apply andb_prop in Hw. destruct Hw as [Hw _].
   apply andb_prop in Hw. destruct Hw as [Hw Hts]. apply andb_prop in Hw. destruct Hw as [Hw Hn].
   apply andb_prop in Hw. destruct Hw as [Hw Hv]. apply andb_prop in Hw. destruct Hw as [Hw Hsk].
   apply andb_prop in Hw. destruct Hw as [Hw Hm]. apply N.eqb_eq in Hsk.
